@@ -8,7 +8,7 @@ from coqbridge import fl
 
 PROP = "C15"
 THEOREM_FILE = "Props/C15.v"
-CHECKER = "Corr.C15"
+CHECKER = "Corr.C15All"
 SHARD = 40
 RULE = ("Real Tracker.update on a real ROMS.Grid with variable bathymetry and random subgrids, horizontal flow (so that "
         "the cell changes during the step), vertical diffusion (generator injected, draws reproduced by the harness) "
@@ -44,6 +44,11 @@ def gen_cases(ctx):
         out.append({"k": "history", "imax": imax, "jmax": jmax, "hseed": rng.randrange(10**6), "subgrid": ti.random_subgrid(rng, jmax, imax),
                     "adv": rng.choice(["", "", "EF"]), "vertdiff": rng.choice([0.0, 1e-3]), "vadv": True, "D": 0.0,
                     "n": rng.randint(3, 8), "seed": rng.randrange(10**6), "steps": rng.randint(3, 7), "u": rng.choice([0.0, 0.0, 1.0])})
+    import vert_float
+
+    for fdesc in vert_float.gen_vert_cases(rng, 120 if ctx.quick else 3000):
+        if fdesc["k"] != "z2s":
+            out.append({"k": "fvert", "f": fdesc})
     return out
 
 
@@ -110,6 +115,14 @@ def eval_history(desc, ctx):
 
 
 def eval_case(desc, ctx):
+    if desc["k"] == "fvert":
+        # the floating-point model of the vertical step (Model/VerticalFloat.v): the real Tracker.update, bit for bit
+        # (leading -9: Corr/C15All -> Corr/VertF), and the invariant 0 <= depth <= h checked EXACTLY on the observed float
+        import vert_float
+
+        r = vert_float.eval_vert_case(desc["f"])
+        r["ints"] = None if r.get("ints") is None else [-9] + [int(x) for x in r["ints"]]
+        return {k_: r[k_] for k_ in ("ints", "oracle", "nontrivial", "kind", "observed")}
     if desc["k"] == "history":
         return eval_history(desc, ctx)
     imax, jmax, sub = desc["imax"], desc["jmax"], desc["subgrid"]
